@@ -829,3 +829,158 @@ fn verif_c09_bytes() {
     }
     r.emit();
 }
+
+// ------------------------------------------------------------------------------------------
+// C12: quarantine at grace/2, removal at grace, re-creation only by a strictly higher heartbeat.
+fn mk_grace(port: u16, grace_ms: u64) -> Chitchat {
+    let mut config = ChitchatConfig::for_test(port);
+    config.failure_detector_config.dead_node_grace_period = Duration::from_millis(grace_ms);
+    let (_tx, rx) = watch::channel(Default::default());
+    Chitchat::with_chitchat_id_and_seeds(config, rx, Vec::new())
+}
+
+fn mentions_in(msg: &ChitchatMessage, id: &ChitchatId) -> bool {
+    match msg {
+        ChitchatMessage::Syn { digest, .. } => digest.node_digests.contains_key(id),
+        ChitchatMessage::SynAck { digest, delta } => digest.node_digests.contains_key(id) || delta.node_deltas.iter().any(|nd| &nd.chitchat_id == id),
+        ChitchatMessage::Ack { delta } => delta.node_deltas.iter().any(|nd| &nd.chitchat_id == id),
+        _ => false,
+    }
+}
+
+fn classification_ok(n: &Chitchat, r: &mut Report, case: &str, when: &str) {
+    let live: HashSet<ChitchatId> = n.live_nodes().cloned().collect();
+    let dead: HashSet<ChitchatId> = n.dead_nodes().cloned().collect();
+    if live.intersection(&dead).next().is_some() {
+        r.fail("live-dead-overlap", format!("{when}: a member is both live and dead"), case);
+    }
+    if !live.contains(n.self_chitchat_id()) {
+        r.fail("self-not-live", format!("{when}: the local node is not live"), case);
+    }
+    if !n.node_states().contains_key(n.self_chitchat_id()) {
+        r.fail("self-removed", format!("{when}: the local node's state was removed"), case);
+    }
+    for id in n.node_states().keys() {
+        if id != n.self_chitchat_id() && live.contains(id) == dead.contains(id) {
+            r.fail("not-classified", format!("{when}: member {:?} is in {} sets", id, if live.contains(id) { "both" } else { "neither of the" }), case);
+        }
+    }
+}
+
+#[tokio::test(start_paused = true)]
+async fn verif_c12_timeline() {
+    let grace_ms: u64 = 100_000;
+    let mut r = Report::new(
+        "c12_timeline",
+        "local node + peer P (made live by 3 fresh heartbeats 1 s apart, with 2 key-values) + witness W; P falls silent; evaluations every 1 s until dead; then clock offsets from the time of death in {grace/2 - 1ms, grace/2, grace/2 + 1ms, grace - 1ms, grace, grace + 1ms}; at each offset every outgoing Syn / SynAck / Ack is decoded and inspected; after removal, digests carrying P with heartbeat in {known - 1, known, known + 1}",
+        true,
+    );
+    for offset_sel in 0..6usize {
+        for relearn_hb_delta in [-1i64, 0, 1] {
+            let offsets = [grace_ms / 2 - 1, grace_ms / 2, grace_ms / 2 + 1, grace_ms - 1, grace_ms, grace_ms + 1];
+            let off = offsets[offset_sel];
+            let case = format!("offset_from_death_ms={off} relearn_heartbeat_delta={relearn_hb_delta}");
+            if let Some(rc) = replay_case() {
+                if rc != case {
+                    continue;
+                }
+            }
+            r.evaluations += 1;
+            let mut n = mk_grace(1, grace_ms);
+            let p = member(0);
+            let w = member(1);
+            // P becomes known and live: three digests with increasing heartbeats, 1 s apart
+            let mut hb = 10u64;
+            for _ in 0..3 {
+                let mut d = Digest::default();
+                d.add_node(p.clone(), Heartbeat(hb), 0, 0);
+                d.add_node(w.clone(), Heartbeat(hb), 0, 0);
+                n.process_message(ChitchatMessage::Syn { cluster_id: "default-cluster".to_string(), digest: d });
+                hb += 1;
+                tokio::time::advance(Duration::from_millis(1000)).await;
+                n.update_nodes_liveness();
+            }
+            {
+                let ns = n.cluster_state.node_state_mut_or_init(&p);
+                ns.set_versioned_value("k1".to_string(), VersionedValue::for_test("v1", 1));
+                ns.set_versioned_value("k2".to_string(), VersionedValue::for_test("v2", 2));
+            }
+            classification_ok(&n, &mut r, &case, "after warm-up");
+            if !n.live_nodes().any(|x| *x == p) {
+                r.fail("warmup-not-live", "P is not live after three fresh heartbeats".to_string(), case.clone());
+                continue;
+            }
+            // silence: W keeps heartbeating, P does not
+            let mut death_ms: Option<u64> = None;
+            let mut t = 0u64;
+            while death_ms.is_none() && t < 200_000 {
+                tokio::time::advance(Duration::from_millis(1000)).await;
+                t += 1000;
+                let mut d = Digest::default();
+                d.add_node(w.clone(), Heartbeat(hb), 0, 0);
+                d.add_node(p.clone(), Heartbeat(12), 0, 0); // stale relay of P's last heartbeat
+                hb += 1;
+                n.process_message(ChitchatMessage::Syn { cluster_id: "default-cluster".to_string(), digest: d });
+                n.update_nodes_liveness();
+                classification_ok(&n, &mut r, &case, "during silence");
+                if n.dead_nodes().any(|x| *x == p) {
+                    death_ms = Some(t);
+                }
+            }
+            let Some(_) = death_ms else {
+                r.fail("never-dead", "P never reported dead after 200 s of silence (stale heartbeats relayed)".to_string(), case.clone());
+                continue;
+            };
+            r.nontrivial += 1;
+            if r.samples.len() < 2 {
+                r.sample(case.clone());
+            }
+            tokio::time::advance(Duration::from_millis(off)).await;
+            // what the node sends now
+            let past_half = off > grace_ms / 2;
+            let syn = n.create_syn_message();
+            let synack = n.process_message(ChitchatMessage::Syn { cluster_id: "default-cluster".to_string(), digest: Digest::default() }).unwrap();
+            let ack = n
+                .process_message(ChitchatMessage::SynAck { digest: Digest::default(), delta: Delta::default() })
+                .unwrap();
+            for (name, m) in [("Syn", &syn), ("SynAck", &synack), ("Ack", &ack)] {
+                let bytes = m.serialize_to_vec();
+                let decoded = ChitchatMessage::deserialize(&mut &bytes[..]).expect("own message decodes");
+                let mentioned = mentions_in(&decoded, &p);
+                if past_half && mentioned {
+                    r.fail("quarantine", format!("{name} sent {off} ms after death (> grace/2) still mentions the dead member"), case.clone());
+                }
+                if !past_half && !mentioned {
+                    r.fail("premature-quarantine", format!("{name} sent {off} ms after death (<= grace/2) no longer mentions the dead member"), case.clone());
+                }
+            }
+            // evaluation: removal exactly from grace on
+            let known_hb = n.node_state(&p).map(|ns| u64::from(ns.heartbeat())).unwrap_or(0);
+            n.update_nodes_liveness();
+            classification_ok(&n, &mut r, &case, "after evaluation");
+            let removed = n.node_state(&p).is_none();
+            if (off >= grace_ms) != removed {
+                r.fail("removal-time", format!("{off} ms after death (grace {grace_ms}): removed={removed}"), case.clone());
+            }
+            if removed {
+                if n.dead_nodes().any(|x| *x == p) || n.live_nodes().any(|x| *x == p) {
+                    r.fail("removed-still-classified", "a removed member is still in the live or dead set".to_string(), case.clone());
+                }
+                let new_hb = (known_hb as i64 + relearn_hb_delta) as u64;
+                let mut d = Digest::default();
+                d.add_node(p.clone(), Heartbeat(new_hb), 0, 2);
+                n.process_message(ChitchatMessage::Syn { cluster_id: "default-cluster".to_string(), digest: d });
+                let recreated = n.node_state(&p).is_some();
+                if recreated != (relearn_hb_delta > 0) {
+                    r.fail("recreation-guard", format!("removed at heartbeat {known_hb}; digest with heartbeat {new_hb}: recreated={recreated}"), case.clone());
+                }
+                n.update_nodes_liveness();
+                if n.live_nodes().any(|x| *x == p) {
+                    r.fail("revived-without-evidence", "a re-created member is live right away".to_string(), case.clone());
+                }
+                classification_ok(&n, &mut r, &case, "after re-learning");
+            }
+        }
+    }
+    r.emit();
+}
